@@ -75,17 +75,31 @@ theorem removeKey_other (fs : FS) (k x : Key) (h : x ≠ k) : (removeKey fs k).g
   unfold removeKey
   (repeat' split) <;> first | rfl | exact get_del_other fs k x h
 
-/-- children first: no key is followed by one of its own children -/
-def ChildrenFirst (ks : List Key) : Prop := ks.Pairwise (fun k c => c = [] ∨ c.dropLast ≠ k)
+def isDirNode : Option Node → Bool
+  | some (.dir _) => true
+  | _ => false
 
-/-- replaying a list of keys that (i) were all absent before, (ii) cover every difference between `cur` and
-`fs`, (iii) have no pre-existing entry directly beneath them and (iv) list children before parents gives
-back `fs` -/
-theorem removeKeys_restores (fs : FS) (ks : List Key) (cur : FS)
+/-- children first, as far as `rmdir` needs it: a key that is a directory in `fs'` is not followed by one
+of its own children -/
+def ChildrenFirst (fs' : FS) (ks : List Key) : Prop :=
+  ks.Pairwise (fun k c => isDirNode (fs'.get k) = false ∨ c = [] ∨ c.dropLast ≠ k)
+
+theorem removeKey_get (fs : FS) (k x : Key) : (removeKey fs k).get x = none ∨ (removeKey fs k).get x = fs.get x := by
+  by_cases h : x = k
+  · subst h
+    unfold removeKey
+    (repeat' split) <;> first | (right; rfl) | (left; exact get_del_same fs x)
+  · right; exact removeKey_other fs k x h
+
+/-- replaying a list of keys that (i) were all absent before, (ii) cover every difference between `fs'` and
+`fs`, (iii) have no pre-existing entry directly beneath them and (iv) list the children of a directory before
+the directory gives back `fs` -/
+theorem removeKeys_restores_aux (fs fs' : FS) (ks : List Key) (cur : FS)
+    (hcur : ∀ x, cur.get x = none ∨ cur.get x = fs'.get x)
     (hfresh : ∀ k ∈ ks, fs.get k = none)
     (hsame : ∀ k, k ∉ ks → cur.get k = fs.get k)
     (hwf : ∀ c, c ≠ [] → fs.get c ≠ none → c.dropLast ∉ ks)
-    (hord : ChildrenFirst ks) :
+    (hord : ChildrenFirst fs' ks) :
     ∀ k, (ks.foldl removeKey cur).get k = fs.get k := by
   induction ks generalizing cur with
   | nil => intro k; exact hsame k (by simp)
@@ -93,6 +107,10 @@ theorem removeKeys_restores (fs : FS) (ks : List Key) (cur : FS)
     simp only [List.foldl_cons]
     have hord' := List.pairwise_cons.mp hord
     apply ih
+    · intro x
+      rcases removeKey_get cur k x with h | h
+      · exact Or.inl h
+      · rw [h]; exact hcur x
     · exact fun x hx => hfresh x (by simp [hx])
     · intro x hx
       by_cases hxk : x = k
@@ -104,6 +122,10 @@ theorem removeKeys_restores (fs : FS) (ks : List Key) (cur : FS)
           split
           · rename_i hch
             exfalso
+            have hdir' : isDirNode (fs'.get x) = true := by
+              rcases hcur x with h | h
+              · rw [h] at hdir; cases hdir
+              · rw [← h, hdir]; rfl
             obtain ⟨c, hc1, hc2, hc3⟩ := hasChildren_elim cur x hch
             by_cases hcm : c ∈ x :: rest
             · rcases List.mem_cons.mp hcm with e | e
@@ -112,7 +134,8 @@ theorem removeKeys_restores (fs : FS) (ks : List Key) (cur : FS)
                 cases c with
                 | nil => exact hc1 rfl
                 | cons a t => simp at this
-              · rcases hord'.1 c e with h | h
+              · rcases hord'.1 c e with h | h | h
+                · rw [hdir'] at h; cases h
                 · exact hc1 h
                 · exact h hc2
             · rw [hsame c hcm] at hc3
@@ -124,5 +147,13 @@ theorem removeKeys_restores (fs : FS) (ks : List Key) (cur : FS)
         exact hsame x (by simp [hxk, hx])
     · exact fun c hc1 hc3 hm => hwf c hc1 hc3 (by simp [hm])
     · exact hord'.2
+
+theorem removeKeys_restores (fs : FS) (ks : List Key) (fs' : FS)
+    (hfresh : ∀ k ∈ ks, fs.get k = none)
+    (hsame : ∀ k, k ∉ ks → fs'.get k = fs.get k)
+    (hwf : ∀ c, c ≠ [] → fs.get c ≠ none → c.dropLast ∉ ks)
+    (hord : ChildrenFirst fs' ks) :
+    ∀ k, (ks.foldl removeKey fs').get k = fs.get k :=
+  removeKeys_restores_aux fs fs' ks fs' (fun _ => Or.inr rfl) hfresh hsame hwf hord
 
 end MesonModel.Install
